@@ -2,6 +2,7 @@
 # usage: lib/run_seeds.sh [<seed-dir>...]   -- for each /verif/seeded/<Cxx-k>: apply patch.diff to /repo, run the quick
 # check of its property, record the report lines in detected.txt, undo the change.  Never commits anything in /repo.
 cd /verif
+export VERIF_EVIDENCE_DIR=/verif/.scratch/evidence_changed_tree   # evidence/ only ever holds runs on the unchanged tree
 dirs="$@"; [ -z "$dirs" ] && dirs=$(ls -d seeded/C*)
 for d in $dirs; do
   id=$(basename $d | cut -d- -f1)
